@@ -417,8 +417,8 @@ def run(ctx):
         ctx.exhaustive["L2_small_scope_all_replayed"] = True
     if want("file"):
         reqs = []
-        for _ in range(ctx.pick(25, 300)):
-            n = rand_box(rng, 8, 24, cap=ctx.pick(4000, 9000))
+        for _ in range(ctx.pick(25, 70)):
+            n = rand_box(rng, 8, 24, cap=ctx.pick(4000, 6000))
             rl = rng.randint(1, max(n) // 2)
             reqs.append({"kind": "hard", "n": n, "rl": rl, "rh": rng.randint(1, rl)})
         for _ in range(ctx.pick(300, 5000)):
@@ -445,12 +445,12 @@ def run(ctx):
             for i in range(24):     # edge = first axis: boxes with three different sizes, every filter in turn
                 cases.append(rand_res(rng, noncubic_box(rng, 8, 20, 3000), filt=["lowpass", "highpass", "bandpass"][i % 3]))
         else:
-            for _ in range(10):
-                n = rand_box(rng, 8, 40, cap=20000)
+            for _ in range(7):
+                n = rand_box(rng, 8, 36, cap=14000)
                 for rl in range(1, max(n) // 2 + 1):          # every integer cutoff of this box
                     cases.append(rand_filt(rng, n, rl=rl))
-            for _ in range(150):
-                cases.append(rand_filt(rng, rand_box(rng, 8, 20, cap=5000)))
+            for _ in range(100):
+                cases.append(rand_filt(rng, rand_box(rng, 8, 20, cap=4000)))
             for n in ([48, 48, 48], [48, 40, 44], [47, 48, 33]):
                 c = rand_filt(rng, n)
                 c["pw_limit"] = 0
